@@ -601,3 +601,32 @@ def q11_distinct_containers(ctx) -> None:
         ctx.ok("Q11", "curr_level holds one fresh deque per expansion set")
     elif n == 0:
         ctx.violation("Q11", init.node, "DefaultQueue.__init__ must build curr_level with one fresh deque() per expansion set", construct=f"{Q}.__init__ curr_level")
+
+
+def q12_working_label_carried(ctx) -> None:
+    """Every label taken from the working queue is carried to the next level, whatever was (or
+    was not) left to do for it: nothing can leave _iter_helper_working between the pop and the
+    update of next_level."""
+    P = ctx.P
+    m = P.need_method(Q, "_iter_helper_working", own=True)
+    f = m.node
+    ctx.analysed(m)
+    pops = [st for st in f.body if any(isinstance(c, ast.Call) and norm(c.func) in ("self.working.popleft", "self.working.pop") for c in ast.walk(st))]
+    if not pops:
+        raise AnalysisError("Q12: _iter_helper_working no longer pops the working queue")
+    lab = None
+    if isinstance(pops[0], ast.Assign) and isinstance(pops[0].targets[0], ast.Name):
+        lab = pops[0].targets[0].id
+    carries = [c for c in walk_local(f) if (isinstance(c, ast.Call) and norm(c.func) in ("self.next_level.update", "self.next_level.__setitem__"))
+               or (isinstance(c, ast.AugAssign) and isinstance(c.target, ast.Subscript) and norm(c.target.value) == "self.next_level")]
+    carries = [c for c in carries if lab is None or lab in {x.id for x in ast.walk(c) if isinstance(x, ast.Name)}]
+    if not carries:
+        ctx.violation("Q12", f, "a label taken from the working queue is never put into next_level: it is not expanded at the next level", construct=f"{Q}._iter_helper_working carry")
+        return
+    cst = C.stmt_of(carries[0]) if not isinstance(carries[0], ast.stmt) else carries[0]
+    if cst in f.body and C.followed_by(f, pops[0], cst) and not C.guards(f, cst):
+        ctx.ok("Q12", "every label popped from working reaches next_level (no exit in between)")
+    else:
+        leaves = [n for n in walk_local(f) if isinstance(n, (ast.Return, ast.Raise)) and n.lineno < cst.lineno]
+        ctx.violation("Q12", leaves[0] if leaves else cst, "a label popped from the working queue can leave _iter_helper_working without being put into next_level: it is then never "
+                      "expanded by the expansion sets")
